@@ -8,6 +8,7 @@ package interp
 
 import (
 	"fmt"
+	"go/token"
 	"go/types"
 	"strings"
 
@@ -22,6 +23,28 @@ func init() {
 	specials = map[string]specialFn{
 		"os.Exit": func(i *interpreter, fr *frame, fn *ssa.Function, args []value) value {
 			panic(exitEvent{fmt.Sprintf("os.Exit(%v)", args[0])})
+		},
+		"internal/abi.NoEscape": func(i *interpreter, fr *frame, fn *ssa.Function, args []value) value { return args[0] },
+		"internal/abi.Escape":   func(i *interpreter, fr *frame, fn *ssa.Function, args []value) value { return args[0] },
+		"(*strings.Builder).String": func(i *interpreter, fr *frame, fn *ssa.Function, args []value) value {
+			p := args[0].(*value)
+			if p == nil {
+				nilDeref()
+			}
+			st := (*p).(structure)
+			b, ok := concreteBytes(st[len(st)-1])
+			if !ok {
+				unsupported("strings.Builder holding symbolic bytes")
+			}
+			return string(b)
+		},
+		"internal/bytealg.MakeNoZero": func(i *interpreter, fr *frame, fn *ssa.Function, args []value) value {
+			n := int(asInt64(args[0]))
+			out := make([]value, n)
+			for j := range out {
+				out[j] = uint8(0)
+			}
+			return out
 		},
 		"runtime.Gosched":       stubNil,
 		"runtime.GC":            stubNil,
@@ -106,6 +129,30 @@ func init() {
 		},
 		"internal/stringslite.Index": func(i *interpreter, fr *frame, fn *ssa.Function, args []value) value {
 			return strings.Index(args[0].(string), args[1].(string))
+		},
+		"strings.Compare": func(i *interpreter, fr *frame, fn *ssa.Function, args []value) value {
+			a, aok := args[0].(string)
+			b, bok := args[1].(string)
+			if aok && bok {
+				return strings.Compare(a, b)
+			}
+			// symbolic: 0 iff equal; the sign of a difference is not modelled (callers test == 0 / != 0)
+			if i.decideValue(symStrBinop(token.EQL, args[0], args[1]), "strings.Compare") {
+				return 0
+			}
+			i.w.stubs["strings.Compare on atoms: only equal/unequal is modelled"]++
+			return 1
+		},
+		"internal/bytealg.CompareString": func(i *interpreter, fr *frame, fn *ssa.Function, args []value) value {
+			return strings.Compare(concStr(args[0], "CompareString"), concStr(args[1], "CompareString"))
+		},
+		"internal/bytealg.Compare": func(i *interpreter, fr *frame, fn *ssa.Function, args []value) value {
+			a, ok1 := concreteBytes(args[0])
+			b, ok2 := concreteBytes(args[1])
+			if !ok1 || !ok2 {
+				unsupported("bytes.Compare on symbolic bytes")
+			}
+			return strings.Compare(string(a), string(b))
 		},
 		"strings.Index": func(i *interpreter, fr *frame, fn *ssa.Function, args []value) value {
 			return strings.Index(concStr(args[0], "strings.Index"), concStr(args[1], "strings.Index"))
